@@ -17,6 +17,10 @@ func (e *Exec) lockKeyOf(v Value) lockKey {
 func init() {
 	nop := func(e *Exec, fn *ssa.Function, a []Value) Value { return nil }
 	reg("(*sync.Mutex).Lock", func(e *Exec, fn *ssa.Function, a []Value) Value {
+		if e.pr != nil {
+			e.procSync("lock", a[0].(Ptr), 0)
+			return nil
+		}
 		k := e.lockKeyOf(a[0])
 		if e.locks[k] != 0 {
 			panic(pathEnd{"deadlock", "Lock of a mutex already held (sequential execution)"})
@@ -26,6 +30,10 @@ func init() {
 		return nil
 	})
 	reg("(*sync.Mutex).Unlock", func(e *Exec, fn *ssa.Function, a []Value) Value {
+		if e.pr != nil {
+			e.procSync("unlock", a[0].(Ptr), 0)
+			return nil
+		}
 		k := e.lockKeyOf(a[0])
 		if e.locks[k] != -1 {
 			panic(&goPanic{val: e.runtimeError("sync: unlock of unlocked mutex"), msg: "fatal error: sync: unlock of unlocked mutex"})
@@ -43,6 +51,10 @@ func init() {
 		return Bool{C: true}
 	})
 	reg("(*sync.RWMutex).Lock", func(e *Exec, fn *ssa.Function, a []Value) Value {
+		if e.pr != nil {
+			e.procSync("lock", a[0].(Ptr), 0)
+			return nil
+		}
 		k := e.lockKeyOf(a[0])
 		if e.locks[k] != 0 {
 			panic(pathEnd{"deadlock", "Lock of an RWMutex already held (sequential execution)"})
@@ -52,6 +64,10 @@ func init() {
 		return nil
 	})
 	reg("(*sync.RWMutex).Unlock", func(e *Exec, fn *ssa.Function, a []Value) Value {
+		if e.pr != nil {
+			e.procSync("unlock", a[0].(Ptr), 0)
+			return nil
+		}
 		k := e.lockKeyOf(a[0])
 		if e.locks[k] != -1 {
 			panic(&goPanic{val: e.runtimeError("sync: Unlock of unlocked RWMutex"), msg: "fatal error: sync: Unlock of unlocked RWMutex"})
@@ -61,6 +77,10 @@ func init() {
 		return nil
 	})
 	reg("(*sync.RWMutex).RLock", func(e *Exec, fn *ssa.Function, a []Value) Value {
+		if e.pr != nil {
+			e.procSync("rlock", a[0].(Ptr), 0)
+			return nil
+		}
 		k := e.lockKeyOf(a[0])
 		if e.locks[k] == -1 {
 			panic(pathEnd{"deadlock", "RLock of a write-held RWMutex (sequential execution)"})
@@ -70,6 +90,10 @@ func init() {
 		return nil
 	})
 	reg("(*sync.RWMutex).RUnlock", func(e *Exec, fn *ssa.Function, a []Value) Value {
+		if e.pr != nil {
+			e.procSync("runlock", a[0].(Ptr), 0)
+			return nil
+		}
 		k := e.lockKeyOf(a[0])
 		if e.locks[k] <= 0 {
 			panic(&goPanic{val: e.runtimeError("sync: RUnlock of unlocked RWMutex"), msg: "fatal error: sync: RUnlock of unlocked RWMutex"})
@@ -125,6 +149,10 @@ func init() {
 	})
 	// WaitGroup
 	reg("(*sync.WaitGroup).Add", func(e *Exec, fn *ssa.Function, a []Value) Value {
+		if e.pr != nil {
+			e.procSync("wgadd", a[0].(Ptr), e.concInt(a[1]))
+			return nil
+		}
 		k := e.lockKeyOf(a[0])
 		e.wgs[k] += e.concInt(a[1])
 		if e.wgs[k] < 0 {
@@ -133,6 +161,10 @@ func init() {
 		return nil
 	})
 	reg("(*sync.WaitGroup).Done", func(e *Exec, fn *ssa.Function, a []Value) Value {
+		if e.pr != nil {
+			e.procSync("wgdone", a[0].(Ptr), 0)
+			return nil
+		}
 		k := e.lockKeyOf(a[0])
 		e.wgs[k]--
 		if e.wgs[k] < 0 {
@@ -141,6 +173,10 @@ func init() {
 		return nil
 	})
 	reg("(*sync.WaitGroup).Wait", func(e *Exec, fn *ssa.Function, a []Value) Value {
+		if e.pr != nil {
+			e.procSync("wgwait", a[0].(Ptr), 0)
+			return nil
+		}
 		k := e.lockKeyOf(a[0])
 		if e.wgs[k] > 0 {
 			panic(pathEnd{"deadlock", "WaitGroup.Wait with positive counter (sequential execution)"})
@@ -151,17 +187,27 @@ func init() {
 	for _, ty := range []string{"Int32", "Int64", "Uint32", "Uint64", "Uintptr", "Pointer"} {
 		ty := ty
 		reg("sync/atomic.Load"+ty, func(e *Exec, fn *ssa.Function, a []Value) Value {
+			if e.pr != nil && e.isShared(a[0].(Ptr).Obj) {
+				return e.procAtomic("load", a[0].(Ptr), nil, nil)
+			}
 			e.atomicDepth++
 			defer func() { e.atomicDepth-- }()
 			return e.load(a[0].(Ptr))
 		})
 		reg("sync/atomic.Store"+ty, func(e *Exec, fn *ssa.Function, a []Value) Value {
+			if e.pr != nil && e.isShared(a[0].(Ptr).Obj) {
+				e.procAtomic("store", a[0].(Ptr), a[1], nil)
+				return nil
+			}
 			e.atomicDepth++
 			defer func() { e.atomicDepth-- }()
 			e.store(a[0].(Ptr), a[1])
 			return nil
 		})
 		reg("sync/atomic.Swap"+ty, func(e *Exec, fn *ssa.Function, a []Value) Value {
+			if e.pr != nil && e.isShared(a[0].(Ptr).Obj) {
+				return e.procAtomic("swap", a[0].(Ptr), a[1], nil)
+			}
 			e.atomicDepth++
 			defer func() { e.atomicDepth-- }()
 			old := e.load(a[0].(Ptr))
@@ -169,6 +215,9 @@ func init() {
 			return old
 		})
 		reg("sync/atomic.CompareAndSwap"+ty, func(e *Exec, fn *ssa.Function, a []Value) Value {
+			if e.pr != nil && e.isShared(a[0].(Ptr).Obj) {
+				return e.procAtomic("cas", a[0].(Ptr), a[1], a[2])
+			}
 			e.atomicDepth++
 			defer func() { e.atomicDepth-- }()
 			old := e.load(a[0].(Ptr))
@@ -187,6 +236,9 @@ func init() {
 		})
 		if ty != "Pointer" {
 			reg("sync/atomic.Add"+ty, func(e *Exec, fn *ssa.Function, a []Value) Value {
+				if e.pr != nil && e.isShared(a[0].(Ptr).Obj) {
+					return e.procAtomic("add", a[0].(Ptr), a[1], nil)
+				}
 				e.atomicDepth++
 				defer func() { e.atomicDepth-- }()
 				old := e.load(a[0].(Ptr)).(Int)
